@@ -45,7 +45,7 @@ def floors(tier):
             "counter:tolerance_sequences_checked": 10, "counter:continued_runs": 4, "counter:rejections_observed": 200,
             "class:prior-unif": 8, "class:prior-gamma": 5, "class:prior-norm": 5, "class:logscale": 5, "class:non-model-order": 8,
             "class:nearest-neighbours": 5, "class:tolerance-list": 3, "class:quantile": 10,
-            "class:infers-initial-state": 8, "class:three-or-more-unknowns": 6, "class:re-ordering-not-self-inverse": 3}
+            "class:infers-initial-state": 8, "class:tol-int": 8, "counter:recorded_tolerance_checks": 40, "class:three-or-more-unknowns": 6, "class:re-ordering-not-self-inverse": 3}
 
 
 class AbcProbe:
@@ -187,7 +187,10 @@ def run_case(rng, idx, tier, lane, ctx):
         return th, xs
 
     # ---- schedule
-    tol0 = 1e12
+    # the (non-binding) initial tolerance as a user may write it: float, Python int, numpy float, infinity
+    tol_form = rng.choice(["float", "int", "int", "np.float64", "inf"])
+    tol0 = {"float": 1e12, "int": 10 ** 12, "np.float64": np.float64(1e12), "inf": np.inf}[tol_form]
+    cls.append("tol-" + tol_form)
     mode = "rejection" if G == 1 else ("tolerance-list" if rng.random() < 0.25 else "quantile")
     seqs = []
     probe = AbcProbe()
@@ -280,6 +283,18 @@ def run_case(rng, idx, tier, lane, ctx):
                         stored=float(abc.dist[i]), reference=exp, particle=abc.res[i].tolist(), names=[d[0] for d in desc], model_parameters=th, model_x0=xs)
     if len(abc.w) != N or not np.all(np.isfinite(abc.w)) or not np.all(abc.w > 0):
         bad("final weights are not all positive and finite")
+    # ---- the recorded schedule is the schedule that was in force: generation g was run under abc.tolerances[g]
+    rec = list(np.asarray(abc.tolerances, dtype=float))
+    by_gen = {}
+    for e in log[-N * len(rec):] if mode != "tolerance-list" else log:
+        by_gen.setdefault(e["gen"], e["tol"])
+    if mode != "tolerance-list" and not seqs[1:]:
+        for gidx, tval in sorted(by_gen.items()):
+            counters["recorded_tolerance_checks"] = counters.get("recorded_tolerance_checks", 0) + 1
+            if gidx < len(rec) and not (rec[gidx] == tval or (np.isinf(rec[gidx]) and np.isinf(tval))):
+                bad("the recorded tolerance of a generation differs from the tolerance its particles were accepted under", generation=gidx,
+                    recorded=rec[gidx], in_force=tval, tolerances=rec, initial_tolerance_given_as=tol_form)
+                break
     # ---- tolerance schedule
     if seqs:
         alltol = [t for s in seqs for t in s]
